@@ -2,9 +2,9 @@
    prod, list, sumbool, sumor map to OCaml's; N, Z, positive stay Coq datatypes. *)
 Require Extraction.
 From Coq Require Import ExtrOcamlBasic.
-From Clikit Require Import Base.Prelude Model.Dispatcher Model.Gate Model.Flags Model.Tokenizer Model.Format Model.Parser Model.Resolver Model.Run Model.Switches Model.RunLine Model.Section Model.Progress Model.Question Model.QuestionText Model.AppState Model.Spinner Model.Spinner2 Model.Markup Model.OutputM Model.Wrap Model.Help Model.HelpRegion Model.Table Model.Trace Model.Spell Model.GatedSection.
+From Clikit Require Import Base.Prelude Model.Dispatcher Model.Gate Model.Flags Model.Tokenizer Model.Format Model.Parser Model.Resolver Model.Run Model.Switches Model.RunLine Model.Section Model.Progress Model.Question Model.QuestionText Model.AppState Model.Spinner Model.Spinner2 Model.Markup Model.OutputM Model.Wrap Model.Help Model.HelpRegion Model.Table Model.Trace Model.Spell Model.GatedSection Model.GateIO Model.OutputIO.
 (* big integers on the wire: decimal digits <-> Z without OCaml bignums *)
 Definition z_of_digits (neg : bool) (ds : list Z) : Z :=
   let v := fold_left (fun acc d => (acc * 10 + d)%Z) ds 0%Z in if neg then Z.opp v else v.
 Definition z_to_text (z : Z) : list N := Conv.dec_text z.
-Extraction "model.ml" z_of_digits z_to_text run_C12 run_C10 run_C07 run_C08 run_C06 run_C01 run_C02 run_C05 run_C03 run_C04 run_C09 run_C15 run_C16 run_C18 run_C17 run_C19 run_C11 run_C13 run_C13G run_C14 run_C20 run_C01S run_C01T run_C10S run_C18T run_C19F run_C12X.
+Extraction "model.ml" z_of_digits z_to_text run_C12 run_C10 run_C07 run_C08 run_C06 run_C01 run_C02 run_C05 run_C03 run_C04 run_C09 run_C15 run_C16 run_C18 run_C17 run_C19 run_C11 run_C13 run_C13G run_C14 run_C20 run_C01S run_C01T run_C10S run_C18T run_C19F run_C12X run_C10IO run_C11IO.
